@@ -17,14 +17,17 @@ MEM_EVENTS = ('mismatched-deallocation',)
 def jobs(tier, seed):
     out = []
     for j in [x for x in c01.jobs(tier, seed) if x.get('name') != 'hist']:
-        if tier == 'quick' and is_sweep(j): continue
+        if j['cfg']['ex_group'] == 1 and j['cfg']['ex_nlen'] >= 3: j = dict(j, cfg=dict(j['cfg'], concname=1))      # (a long FREE name against the 8 names of POINT costs 20-80 s and is C01's subject)
         if j['cfg']['pad'] < 0 or j['cfg']['pad'] % 64 == 0: out.append(dict(j, family='build-save-load'))
     for j in c04.jobs(tier, seed):
-        if tier == 'quick' and (j['name'] in ('labels_more', 'desc255') or is_sweep(j)): continue
+        if tier == 'quick' and j['name'] in ('labels_more', 'desc255'): continue
         if j['name'] == 'align' and j['opts']['extras'][0]['desc_len'] % 32 != 31: continue      # the alignment sweep is C04's subject; keep the 255-character cases
         out.append(dict(j, family='load-save-load'))
     for j in histcommon.hist_jobs('quick', seed, finish=1):
-        if tier == 'quick' and j['cfg']['start'] in (1, 3, 5): continue      # quick: fresh, populated and fewer-labels start states (the others are C05/C07/C10's daily runs, same monitors)
+        # quick: populated and fewer-labels start states with the print+save+reload epilogue, the fresh one without it (the epilogue is 5/6 of
+        # the cost of a history); the other start states are C05/C07/C10's daily runs (same memory monitors, no epilogue)
+        if tier == 'quick' and j['cfg']['start'] in (1, 3, 5, 6): continue
+        if tier == 'quick' and j['cfg']['start'] == 0: j = dict(j, cfg=dict(j['cfg'], finish=0))
         out.append(dict(j, family='history'))
     if tier == 'thorough':
         # depth 3 without the print/save/reload epilogue (it is 3/4 of the cost of a history; the epilogue runs on every depth-2 history above)
@@ -44,8 +47,8 @@ def run_job(engine, job):
     files = None; assume = None; fam = job['family']
     if fam == 'load-save-load':
         S, c, lay, cells = c02.build_file(job); files = {'in.c3d': gen.to_engine_cells(cells)}; assume = S.cons
-    elif fam == 'history' and job['cfg'].get('start') in (3, 4, 5):
-        S, cells = histcommon.start_file(fewer=job['cfg']['start'] == 4, empty_analog=job['cfg']['start'] == 5); files = {'in.c3d': gen.to_engine_cells(cells)}; assume = S.cons
+    elif fam == 'history' and job['cfg'].get('start') in (3, 4, 5, 6):
+        S, cells = histcommon.start_file(fewer=job['cfg']['start'] == 4, empty_analog=job['cfg']['start'] == 5, deviating_lists=job['cfg']['start'] == 6); files = {'in.c3d': gen.to_engine_cells(cells)}; assume = S.cons
     elif fam == 'tree-edits' and job['cfg'].get('start') == 2:
         S, cells = c09.dup_group_file(); files = {'in.c3d': gen.to_engine_cells(cells)}; assume = S.cons
     elif fam == 'tree-edits' and job['cfg'].get('start') == 1:
